@@ -9,7 +9,7 @@ Init == l = 1 /\ cnt = [events |-> 0, nontrivial |-> 0, unknownparts |-> 0]
 Next == /\ l <= Len(Trace)
         /\ LET e == Trace[l] IN
            /\ (~Prem(e) => PrintT(<<"INCON", l, "UnrankedBound">>))
-           /\ (Prem(e) => \A x \in MpFailed(e) : PrintT(<<"VIOL", l, x>>))
+           /\ (Prem(e) => \A x \in MpFailed(e) \cup Reread(e) : PrintT(<<"VIOL", l, x>>))
            /\ cnt' = [cnt EXCEPT !.events = @ + 1, !.nontrivial = @ + (IF e.m.ok /\ e.back.ok THEN 1 ELSE 0),
                                  !.unknownparts = @ + (IF e.m.ok /\ ~WhollyKnown(e.v) THEN 1 ELSE 0)]
         /\ l' = l + 1
